@@ -80,6 +80,12 @@ class Engine(ExprMixin, CallMixin, BuiltinMixin, ApplyMixin, StmtMixin, _Base):
             del self.obligations[n0:]
             rep["status"] = "untranslatable"
             rep["reason"] = "recursion limit in translator"
+        except (ValueError, KeyError, AttributeError, TypeError, IndexError, z3.Z3Exception) as e:
+            import traceback
+            del self.obligations[n0:]
+            rep["status"] = "untranslatable"
+            rep["reason"] = f"translator error {type(e).__name__}: {e} @ {traceback.extract_tb(e.__traceback__)[-1][:3]}"
+            self.untranslatable[key] = rep["reason"]
         rep["obligations"] = len(self.obligations) - n0
         return rep
 
@@ -234,8 +240,14 @@ class Engine(ExprMixin, CallMixin, BuiltinMixin, ApplyMixin, StmtMixin, _Base):
 
 
 # ---------------------------------------------------------------------- discharging
+_JOBCTX = {}
+
+
 def _solve_one(job):
-    name, text, timeout_ms, seed, expect_fail = job
+    idx, name, timeout_ms, seed, expect_fail = job
+    eng, obs = _JOBCTX["engine"], _JOBCTX["obs"]
+    ob = obs[idx]
+    text = to_smt2(eng.voc, ob.assumptions, ob.goal)      # serialised in the worker (forked copy of the z3 context)
     if expect_fail:
         verdict, secs, solver, reason = solve_smt2(text, min(timeout_ms, 1000), seed, mode="ematching")
         return name, verdict, secs, solver, reason, [(solver, verdict, round(secs, 3))]
@@ -256,15 +268,16 @@ def _solve_one(job):
 
 
 def discharge(engine: Engine, obligations: List[Obligation], timeout_ms=10000, seed=0, workers=None):
-    jobs = []
-    for ob in obligations:
-        text = to_smt2(engine.voc, ob.assumptions, ob.goal)
-        jobs.append((ob.name, text, timeout_ms, seed, ob.expect_fail))
+    jobs = [(i, ob.name, timeout_ms, seed, ob.expect_fail) for i, ob in enumerate(obligations)]
     workers = workers or min(16, os.cpu_count() or 4)
     results = {}
     if not jobs:
         return results
+    _JOBCTX["engine"], _JOBCTX["obs"] = engine, obligations
+    ordered = [None] * len(jobs)
     with mp.get_context("fork").Pool(workers) as pool:
-        for name, verdict, secs, solver, reason, tried in pool.imap_unordered(_solve_one, jobs, chunksize=1):
-            results.setdefault(name, []).append({"verdict": verdict, "secs": secs, "solver": solver, "reason": reason, "tried": tried})
+        for i, out in enumerate(pool.imap(_solve_one, jobs, chunksize=1)):
+            ordered[i] = out
+    for name, verdict, secs, solver, reason, tried in ordered:
+        results.setdefault(name, []).append({"verdict": verdict, "secs": secs, "solver": solver, "reason": reason, "tried": tried})
     return results
